@@ -627,7 +627,10 @@ def r24_call_shim(src, item, ed, opts):
         idxs = [sp["n"]] if "n" in sp else list(range(len(c)))
         if "n" in sp and sp["n"] >= len(c):
             raise LostAnchor(f"{kind} site #{sp['n']} ({sp.get('method') or sp.get('func') or sp.get('name') or sp.get('op')}) of {item['path']}")
-        if "n" not in sp and not c and not sp.get("optional"):
+        # a shim named by callee/receiver/operand text that matches nothing is simply not applied (the code
+        # that needed it is gone; what replaced it is judged by the verifier as it stands); `required=true`
+        # or an ordinal keeps the old behaviour
+        if "n" not in sp and not c and sp.get("required"):
             raise LostAnchor(f"{kind} site ({sp.get('method') or sp.get('func') or sp.get('name') or sp.get('op')}) of {item['path']}")
         for i in idxs:
             n = c[i]
